@@ -46,22 +46,27 @@ pub fn c18_doubles() {
     }
     forget(r);
 }
-/// function values are not representable: an error at top level and inside a list, never a panic
+/// function values are not representable: an error at top level, never a panic
 #[cfg_attr(kani, kani::proof)]
 #[cfg_attr(kani, kani::unwind(6))]
 #[cfg_attr(kani, kani::stub(alloc::fmt::format, stub_format))]
-pub fn c18_function_values_are_errors() {
+pub fn c18_function_value_is_error() {
     let f = Value::Function(Arc::new(String::new()), None);
     let r = f.json();
     assert!(r.is_err());
     forget(r);
-    let i: i64 = any();
-    let l = Value::List(Arc::new(vec![Value::Int(i), Value::Function(Arc::new(String::new()), None)]));
+    forget(f);
+}
+/// ... and inside a list (the `?` on the nested failure)
+#[cfg_attr(kani, kani::proof)]
+#[cfg_attr(kani, kani::unwind(6))]
+#[cfg_attr(kani, kani::stub(alloc::fmt::format, stub_format))]
+pub fn c18_function_value_in_list_is_error() {
+    let l = Value::List(Arc::new(vec![Value::Function(Arc::new(String::new()), None)]));
     let r = l.json();
     assert!(r.is_err());
     forget(r);
     forget(l);
-    forget(f);
 }
 /// lists become arrays of the exported elements, in order
 #[cfg_attr(kani, kani::proof)]
